@@ -34,9 +34,12 @@ def r_leg_ident(ck: Checker) -> None:
     a = ck.repo.func(LNODE, f"{CLS}.ancestors")
     body = strip_docstring(a.node.body)
     what = "ancestors() is the parent chain starting at the parent"
-    ok = len(body) == 2 and norm(body[0]) == "parent = self.parent" and isinstance(body[1], ast.While) and norm(body[1].test) == "parent is not None" \
-        and [norm(s) for s in body[1].body] == ["yield parent", "parent = parent.parent"]
-    (ck.holds if ok else ck.violation)("R-LEG-IDENT", a, a.node, what, **({} if ok else {"construct": "ancestors: parent chain not recognised / wrong"}))
+    from ..loops import chain_generator
+    v = chain_generator(body, "self", lambda x: f"{x}.parent", lambda x: f"{x}.ancestors()")
+    if v.ok:
+        ck.holds("R-LEG-IDENT", a, a.node, what, evaluations=v.evaluations, proof=v.why)
+    else:
+        ck.violation("R-LEG-IDENT", a, a.node, what, construct=f"ancestors: {v.why}")
     d = ck.repo.func(LNODE, f"{CLS}.detached")
     rets = [s for s in walk_body(d.node.body) if isinstance(s, ast.Return)]
     what = "detached means: the registry entry under the node's id is not this very node"
